@@ -141,6 +141,13 @@ def explore(mod, res, rng, tier, known_ids, can_drive, cases):
 	BATCH = getattr(mod, 'BATCH', 20000)
 	batch = []
 
+	def crashed(stage, case, exc):
+		# an exception escaping from the adapters means the real code raised where it does not on the pinned tree
+		# (every adapter catches what the library is allowed to raise): that is a failing input, not a harness error
+		if len(res.violations) < 50:
+			res.violations.append({'what': 'the real code raised %s: %s while the harness ran it (%s)' % (type(exc).__name__, str(exc)[:200], stage),
+				'case': mod.describe(case), 'traceback': traceback.format_exc()[-1500:]})
+
 	def flush():
 		if not batch:
 			return
@@ -148,7 +155,11 @@ def explore(mod, res, rng, tier, known_ids, can_drive, cases):
 			mod.prepare(batch)
 		lines, spans = [], []
 		for case in batch:
-			ml = mod.model_lines(case) if can_drive else None
+			try:
+				ml = mod.model_lines(case) if can_drive else None
+			except Exception as exc:
+				crashed('model_lines', case, exc)
+				ml = None
 			if ml is None:
 				spans.append(None)
 				if can_drive:
@@ -164,7 +175,11 @@ def explore(mod, res, rng, tier, known_ids, can_drive, cases):
 			agree = None
 			if span is not None:
 				mo = outs[span[0]:span[0] + span[1]]
-				io = mod.impl_lines(case)
+				try:
+					io = mod.impl_lines(case)
+				except Exception as exc:
+					crashed('impl_lines', case, exc)
+					io = ['raised']
 				if any('skip' in l.split() or ';skip' in l for l in mo):
 					# the model declares the input outside its domain (a stdlib routine it does not model)
 					res.skipped += 1
@@ -190,7 +205,11 @@ def explore(mod, res, rng, tier, known_ids, can_drive, cases):
 					res.distinct.add(key)
 				if len(res.samples) < 8 and (res.evaluations % 97 == 1):
 					res.samples.append({'case': mod.describe(case)})
-			fail = mod.oracle(case)
+			try:
+				fail = mod.oracle(case)
+			except Exception as exc:
+				crashed('oracle', case, exc)
+				fail = None
 			if fail is not None:
 				fid = fail.get('finding')
 				if fid in known_ids and agree is not False:
